@@ -23,13 +23,13 @@ CLAIMED = {
    tech="TLA+ lock-level spec + TLC deadlock/liveness check + contended replays under a watchdog"),
  "C03": dict(cat="model_checking", ref="DESIGN.md 5 (C03), 3.2", text="TLC checks the freshness/labelling invariants of the Proxy spec over header forms x policies x time shifts; TLC-generated histories are replayed on the real proxy (scripted origin, shifted entry timestamps) and every exchange (HIT iff no origin contact while fresh, Age/ttl, forced contact once stale) is judged by TLC trace validation.", note="one tick = 10 s of header time, Age/ttl within the real seconds elapsed; 18 header forms incl. case, several lines, malformed dates; all four policy combinations sampled", tech="TLA+ spec + TLC exhaustive check + replay on the real proxy judged by TLC trace validation"),
  "C04": dict(cat="model_checking", ref="DESIGN.md 5 (C04), 3.2", text="The spec's Storable table (in TLA+) decides which 200 GET responses enter the store under each policy; TLC checks StoredIsStorable; replayed histories compare, after every origin answer, what the real store holds (presence and version) with the spec and every later request's reuse/contact with the spec.", note="forms whose two directions of the property disagree (positive max-age + past Expires, Cache-Control without a listed directive) are accepted either way", tech="TLA+ spec + TLC exhaustive check + replay judged by TLC trace validation"),
- "C05": dict(cat="model_checking", ref="DESIGN.md 5 (C05), 3.2", text="TLC checks OneFetchPerFlight / FollowersAccounted / NoOrphanFollowers over all arrival orders, answers and disconnects of 3 clients; replayed histories hold the origin so that clients pile up in one flight, disconnect leaders and followers, and TLC judges the number of origin contacts, who waits, and every client's complete verified response.", note="3 clients in the model and replays; followers are observed by goroutine wait state inside singleflight", tech="TLA+ spec + TLC exhaustive check + replay judged by TLC trace validation"),
+ "C05": dict(cat="model_checking", ref="DESIGN.md 5 (C05), 3.2", text="TLC checks OneFetchPerFlight / FollowersAccounted / NoOrphanFollowers over all arrival orders, answers and disconnects of 3 clients; replayed histories hold the origin so that clients pile up in one flight, disconnect leaders and followers, and TLC judges the number of origin contacts, who waits, and every client's complete verified response; SlowReaders scenarios (K stalled readers of a 96 MiB body, cacheable or not) check that late-comers and the stalled clients themselves are served completely.", note="3 clients in the model and replays, up to 16 stalled readers in the SlowReaders scenarios; followers are observed by goroutine wait state inside singleflight", tech="TLA+ spec + TLC exhaustive check + replay judged by TLC trace validation"),
  "C06": dict(cat="model_checking", ref="DESIGN.md 5 (C06), 3.2", text="TLC explores revalidation histories (expiry, origin version/validator changes, 304/200/other answers); in replays the origin records the conditional headers it receives, classified against every validator it ever sent and against the client's own conditionals, and TLC judges them and the 304-renew / 200-replace / relay outcome.", note="a synthesised If-Modified-Since (store time) is accepted when the origin sent no Last-Modified", tech="TLA+ spec + TLC exhaustive check + replay judged by TLC trace validation"),
  "C09": dict(cat="fault_enumeration", ref="DESIGN.md 5 (C09), 3.2", text="Faults are steps of the spec placed by TLC: eviction at any point between lookup, revalidation answer and hand-over, another client's disconnect, origin errors; each placement is replayed and every client whose origin answer was good must receive it (status and verified body); store refusals are replayed end to end (empty bodies on both backends, a memory cache with no room: StoreMayRefuse in the spec) and cache-level refusals and hangs (full cache, empty body, failing source, leaked lock) are enumerated by the CacheStore families.", note="write failures of the cache directory are injected at cache level only", tech="TLA+ spec: fault placements generated by TLC, replayed on the real proxy, judged by TLC trace validation"),
  "C07": dict(cat="exploration", ref="DESIGN.md 5 (C07), 3.3", text="Bounded-exhaustive differential check against the TLA+ reference RangeSpec: every token string up to length 4/5 x 5 sizes through the real parser and slicer, outcome judged by TLC for membership in Allowed(prefix, tail, size).", note="bounded token language, function level (plus end-to-end sample when present); not a proof over all strings", tech="TLA+ reference semantics + TLC-enumerated inputs + differential run judged by TLC"),
  "C02": dict(cat="exploration", ref="DESIGN.md 5 (C02), 3.4", text="Bounded-exhaustive partition check against the TLA+ reference CacheKey: enumerated wire targets are parsed by http.ReadRequest and keyed by the real MakeFromRequest; TLC judges that keys are shared exactly as the Strict/Loose identities demand; the same targets are sent twice through the real proxy on a raw socket and the origin's answers name the request that produced each stored entry, so TLC also sees whose entry every response came from.", note="bounded target language; percent-encoding variants and ''/'/' accepted either way", tech="TLA+ reference identity + TLC-enumerated targets + partition judged by TLC"),
  "C08": dict(cat="exploration", ref="DESIGN.md 5 (C08), 3.10", text="Bounded-exhaustive differential check against the TLA+ reference Relay: TLC enumerates relay cases (methods x bodies, path/query spellings, small subsets and the full set of request and response header features, statuses incl. redirects, body kinds, gzip pass-through) on both transports; a raw-socket client drives the real proxy (plain and CONNECT+TLS with a real PrivateCA) against a recording origin, storable GETs are asked twice; TLC judges method, raw path, query, bodies, status and per-field value sequences (end-to-end fields arrive in order, hop-by-hop and Connection-nominated fields do not). The retry_on_range_416 replay family contributes the status-fidelity categories of ProxyTrace.", note="bounded vocabulary; response fields the origin did not send may be added by the proxy; two known findings (Connection: close hides nominated names inside net/http) are listed in known_findings.json", tech="TLA+ reference semantics + TLC-enumerated cases + differential run on the real proxy judged by TLC (+ TLC trace validation of the retry family)"),
- "C10": dict(cat="model_checking", ref="DESIGN.md 5 (C10), 3.10", text="spec/Tunnel.tla keeps the tunnel's responder object explicit; TLC checks Isolated on all exchange sequences up to length 4 and shows it violated for the one-responder-per-tunnel deviation (negative control); all sequences of length 2 (quick) / 2..3 (thorough) over 12 exchange kinds are run on the real proxy over one shared tunnel, one tunnel per exchange and plain HTTP, and TLC trace validation (TunnelTrace) judges every exchange against the spec and the three ways against each other.", note="10 exchange kinds, sequences up to length 3 on the code; framing (Content-Length vs chunked) judged through body identity and left-over bytes", tech="TLA+ spec + TLC exhaustive check + exhaustive short sequences replayed three ways on the real proxy, judged by TLC trace validation"),
+ "C10": dict(cat="model_checking", ref="DESIGN.md 5 (C10), 3.10", text="spec/Tunnel.tla keeps the tunnel's responder object explicit; TLC checks Isolated on all exchange sequences up to length 4 and shows it violated for the one-responder-per-tunnel deviation (negative control); all sequences of length 2 (quick) / 2..3 (thorough) over 12 exchange kinds are run on the real proxy over one shared tunnel, one tunnel per exchange and plain HTTP, and TLC trace validation (TunnelTrace) judges every exchange against the spec and the three ways against each other.", note="15 exchange kinds, sequences up to length 3 on the code; framing (Content-Length vs chunked) judged through body identity and left-over bytes", tech="TLA+ spec + TLC exhaustive check + exhaustive short sequences replayed three ways on the real proxy, judged by TLC trace validation"),
  "C16": dict(cat="exploration", ref="DESIGN.md 5 (C16), 3.9", text="Bounded-exhaustive enumeration of the small grammars (range-spec, cache-control/expires, PHC, byte-size) generated by TLC and (with quote and sign tokens) fed to the real parsers under recover(); TLC judges no-panic (and acceptance of well-formed PHC). The relay cases of spec/Relay.tla (request shapes over a raw socket on both transports) must each be answered with a well-formed response, and the retry_on_range_416 / default-policy replay families of spec/Proxy.tla must never end in a dropped connection.", note="no coverage-guided fuzzing; enumerable grammars and the relay vocabulary only", tech="TLC-enumerated grammars + real parsers under recover(), judged by TLC"),
  "C17": dict(cat="exploration", ref="DESIGN.md 5 (C17), 3.6", text="Size-string grammar/value/round-trip judged by TLC against the ByteSize reference over an enumerated string language and boundary byte counts; config save/load and override sequences judged against ConfigCells when present.", note="bounded languages; values above 2^31 compared via quotient/remainder", tech="TLA+ reference grammar + TLC-enumerated inputs + differential run judged by TLC"),
  "C18": dict(cat="fault_enumeration", ref="DESIGN.md 5 (C18), 3.6", text="TLC enumerates update documents (valid / unworkable / ill-typed values, several keys), overrides and a failing file write as steps of the ConfigCells spec and checks OnlyWorkable / FileIsBase / ComponentsFollow; each sequence is replayed on the real config package with a live cache, janitor and listeners, and after every step the effective settings, the components and the file are judged by TLC trace validation; a dead process is a violation.", note="five settings; write failure injected at one byte count per failing update", tech="TLA+ spec: fault placements generated by TLC, replayed on the real config package, judged by TLC trace validation"),
